@@ -62,6 +62,33 @@ def compare_crate(base, feat, exceptions=()):
                 res['excepted'].append((n, d))
             else:
                 res['changed'].append((n, d, b['span']))
+    # a private helper that only the excepted function(s) call is part of the exception (the documented refinement may live in a helper
+    # such as `language_direction`); what it computes is decided by the rule that owns the exception (C14's cascade), not here
+    if exceptions and res['changed']:
+        callers = {}
+        for n, b in feat.bodies.items():
+            if not b.get('mir'):
+                continue
+            for blk in b['mir']['blocks']:
+                t = blk['term']
+                if t['k'] == 'call':
+                    callers.setdefault(t.get('r') or t.get('f'), set()).add(n.split('::{closure')[0])
+                for m in re.finditer(r"'fn': '([^']+)'", str(blk)):
+                    callers.setdefault(m.group(1), set()).add(n.split('::{closure')[0])
+        ok = set(exceptions)
+        moved = True
+        while moved:
+            moved = False
+            for item in list(res['changed']):
+                n = item[0]
+                root = n.split('::{closure')[0]
+                b = feat.bodies.get(root) or {}
+                cs = callers.get(root, set()) - {root}
+                if (root in ok) or (not b.get('reach') and cs and cs <= ok):
+                    ok.add(root)
+                    res['changed'].remove(item)
+                    res['excepted'].append((n, item[1]))
+                    moved = True
     res['added'] = sorted(n for n in feat.bodies if n not in base.bodies)
     # ADTs: identical field lists
     for n, a in base.adts.items():
